@@ -141,11 +141,30 @@ def r_c01_chronological(s4, repo, scratch):
             'cmd': '%s --color never %s %s' % (s4, b, a), 'expected': ' '.join(want), 'observed': ' '.join(got), 'failed': got != want}
 
 
+def r_c03_evtx_window(s4, repo, scratch):
+    """an event log stored out of order: every record with creation time <= B is printed under --dt-before B"""
+    f = os.path.join(repo, 'logs/programs/evtx/Microsoft-Windows-Kernel-PnP%4Configuration.evtx')
+    rx = re.compile(rb'SystemTime="([^"]*)"')
+    rc, out, err = run_s4(s4, ['--color', 'never', f])
+    all_ts = [m.decode() for m in rx.findall(out)]
+    bad = []
+    for b in ('2023-03-16T03:00:00', '2023-03-10T03:49:43', '2023-03-16T03:54:33'):
+        rc, o2, err = run_s4(s4, ['--color', 'never', '-b', b + '+00:00', f])
+        got = len(rx.findall(o2))
+        want = len([t for t in all_ts if t[:19] <= b])
+        if got != want:
+            bad.append('%s: printed %d, expected %d' % (b, got, want))
+    return {'name': 'C03.evtx_window', 'input': f, 'how_made': 'file from the repository (stores records 204, 205 after later ones)',
+            'cmd': '%s --color never -b 2023-03-16T03:00:00+00:00 %s' % (s4, f), 'expected': 'for each bound B: records printed == records of the unfiltered run with creation time <= B',
+            'observed': '; '.join(bad) if bad else 'all bounds agree (%d records in total)' % len(all_ts), 'failed': bool(bad) or not all_ts}
+
+
 RECIPES = {
+    'C10': [r_c03_evtx_window],
     'C01': [r_c01_tie_order, r_c01_chronological],
     'C06': [r_c01_tie_order, r_c01_chronological],
     'C13': [r_c13_field_order_fixedstruct],
-    'C03': [r_c03_journal_before_inclusive],
+    'C03': [r_c03_journal_before_inclusive, r_c03_evtx_window],
     'C08': [r_c08_equal_times, r_c08_order],
 }
 
